@@ -4,4 +4,8 @@ pub(crate) mod macros;
 pub(crate) mod operand;
 pub mod syscalls;
 pub(crate) mod tests;
+#[cfg(kani)]
+pub(crate) mod vmap;
+#[cfg(any(kani, ax_verif))]
+pub mod vnondet;
 pub mod trace;
